@@ -149,7 +149,7 @@ fn sched_strategy(n: usize) -> BoxedStrategy<Sched> {
     .boxed()
 }
 
-fn case_strategy(spec: &ConcSpec) -> BoxedStrategy<ConcCase> {
+pub fn case_strategy(spec: &ConcSpec) -> BoxedStrategy<ConcCase> {
     let single = spec.single_thread_pct;
     let lower = spec.lower_only_pct;
     let freeze = spec.freeze;
